@@ -85,7 +85,7 @@ PROPS = {
         'technique': 'in-harness contract checker over real renders: unique element ids make permutation, stability, first-occurrence and partition checks exact; model equality/order written from the docs',
         'claim': 'Arrays of 0-200 elements (around and beyond the 20-element merge threshold of slice::sort) over mixed kinds, duplicates across numeric encodings, nested arrays/maps, none and '
                  'missing attributes go through sort (plain, attribute, dotted and tuple paths), unique, group_by, first/last/nth/reverse/join/split/keys/values/pairs; every output is checked against '
-                 'the contract (permutation, non-decreasing, stable, refusal of incomparable keys, first representatives, partition, identities). Panics are recorded, CPU budget per case.',
+                 'the contract (permutation, non-decreasing, stable, refusal of incomparable keys, first representatives, partition, identities). Panics are recorded, CPU budget per case. `reverse` of strings is checked by characters (and is an involution).',
         'note': 'sort order of array-valued keys uses the engine order (whose lawfulness C15 checks) because the docs and the code disagree on it; a missing attribute may be an error or be discarded',
         'rule': "one evaluation = one render of a collection-filter template; a cell = (filter template, mix of key kinds in the array, length class [0,1,small,merge,large], ok/err)",
         'must_observe': ['sorts_verified', 'uniques_verified', 'group_bys_verified', 'nth_verified', 'hostile_attribute_paths'],
@@ -97,7 +97,7 @@ PROPS = {
         'technique': 'matrix enumeration with a panic recorder (55 built-ins x 57 receivers x declared-argument states absent/right/wrong kind) + per-built-in contract oracles on random hostile strings and numbers',
         'claim': 'The full matrix is enumerated in both tiers: every built-in with every receiver of the pool, each declared argument absent, of the right kind at boundary values and of each wrong kind, '
                  'argument pairs for multi-argument built-ins, and undeclared argument names; no panic, valid UTF-8, missing required and mistyped arguments must be errors. '
-                 'Contract laws (case filters, trim*, truncate, replace, indent, newlines_to_br, escape_*, int/float/abs/str/round, default, range, type-test partition, odd/even, pluralize) run on random inputs.',
+                 'Contract laws (case filters, trim*, truncate, replace, indent, newlines_to_br, escape_*, int/float/abs/str/round, default, range, type-test partition, odd/even, pluralize) run on random inputs. Order-independence pass: every built-in, with no argument and with each optional or sole required argument, over 36 neighbouring values (sub- and supersets of maps and arrays, numbers equal up to representation, strings sharing prefixes or differing in a trailing NUL) forwards, backwards, again and twice in a row: each result must equal the first one obtained for that value. `reverse` of bytes gives the reversed bytes (equality, involution, length, printed text); `n is divisible_by(0)` is false or refused for every n but zero.',
         'note': 'case-mapping laws are asserted on scripts with 1:1 case maps only; documented ambiguities are accepted both ways (entity spelling of the apostrophe, pluralize of -1, indent of whitespace-only lines / blank first line, range with start > end); round tolerates one unit of the requested place',
         'rule': "one evaluation = one render; a cell = (built-in, receiver kind, argument name:state:argument kind, ok/err) for the matrix and (law family, input class) for the laws",
         'exhaustive': 'the built-in x receiver x argument-state matrix is complete; law inputs are sampled',
@@ -160,7 +160,7 @@ PROPS = {
         'claim': 'For generated multi-template programs (inheritance with super(), includes, components with bodies, loops, captures, both write sinks, autoescape on) every render/render_block/render_component/render_str result is compared with the bytes '
                  'its _to variant writes; a counting writer measures the W write calls and N bytes of each successful render and a failing writer is then injected at every call index (up to 160) and at byte offsets 0, 1, N/2, N-1 and every 7th, '
                  'with kinds Other/WriteZero/Interrupted-then-error/BrokenPipe and 1-3 byte short writes: the result must be an Io error, the accepted bytes a prefix, no panic. One job per program walks maps in every way whose output depends on their order (the dump variable, a map literal with variables, group_by, keys/values/pairs, a comprehension, json_encode), so that repeat, channel and thread comparisons see order instability. A deterministic family drives all four entry points into the nesting limits (recursive components 10-41 levels deep, directly and through includes, include chains 96-158 deep): both channels must succeed with the same bytes or both fail. The hook digest of the engine and the context are compared before/after; '
-                 'one program in four is rendered from 2-16 threads on a fresh shared instance (random job orders, start barrier) and compared byte for byte with the sequential reference.',
+                 'one program in four is rendered from 2-16 threads on a fresh shared instance (random job orders, start barrier) and compared byte for byte with the sequential reference. Context alternation: on odd cases every job is rendered with a second context (same names, other values) on the engine that rendered it with the first, and must give what a new engine gives; the first context again must give the reference. Every program carries three partials that name no ordinary variable (the context dump, a registered filter reading the State, static text) and an entry including them.',
         'note': 'Send+Sync of Tera, Context, Value, Key, Kwargs, Error, Number is a compile-time assertion in the harness (a regression is a build failure attributed to this check); data races proper are the business of the TSan/Miri legs, the quick tier only compares results',
         'rule': "one evaluation = one render or one injected failure point; a cell = (render variant, call/byte failure site, failure kind, short/full writes), (variant, ok/err) for the channel differential and the thread count for concurrency",
         'must_observe': ['channel_pairs_compared', 'failure_points_injected', 'purity_checks', 'concurrent_renders_compared', 'channel_pairs_at_nesting_limits', 'includes_from_one_off_strings_compared', 'context_alternations_compared'],
@@ -198,7 +198,7 @@ PROPS = {
         'claim': 'Histories of 1-25 calls over 9 names and 35 template kinds: single and batched adds (one batch in four through add_template_files on scratch files, a third of those with a missing or non-UTF-8 file, which must fail the whole call), valid and invalid in every listed way (syntax error early/late, missing parent, extends and include cycles, unknown filter/test/function/component/include, '
                  'duplicate component at equal priority, orphan block, duplicate name inside a batch), replacements of parents, include targets, component providers and fallback-shadowed templates, autoescape_on interleaved, 0-2 fallback prefixes. '
                  'After each failed call the digest (parents, autoescape flags, size hints, block lineage origins, global component table, configuration) and the observables (names, renders, block renders, component renders and definitions) must equal the pre-call snapshot; '
-                 'after each successful call and each reconfiguration they must equal those of a fresh instance given the model\'s set in one shuffled batch, with the suffixes configured before or after the add.',
+                 'after each successful call and each reconfiguration they must equal those of a fresh instance given the model\'s set in one shuffled batch, with the suffixes configured before or after the add. The histories include a template name under the higher-priority fallback prefix, so that a later add can shadow what a short name resolved to.',
         'note': 'errors are compared by their first line; the digest identifies chunks by origin template and length (instruction listings are not stable across compilations because keyword arguments are compiled in hash order)',
         'rule': "one evaluation = one add call or one fresh-instance build; a cell = (failure message class, batch size, replacing/new names) for failed calls and (set size, prefixes, suffix-before/after) for fresh comparisons",
         'must_observe': ['failed_calls_checked_for_rollback', 'fresh_instance_comparisons', 'successful_calls', 'autoescape_reconfigurations', 'calls_through_add_template_files', 'file_faults_injected'],
@@ -209,7 +209,7 @@ PROPS = {
         'technique': 'independent graph oracle (exact-then-prefix name resolution, plain DFS for cycles) compared with the engine verdict and error kind on generated extends/include digraphs; every accepted set rendered in a supervised child process with a CPU watchdog',
         'claim': 'Random digraphs on 1-10 templates (<= 1 extends edge per node; include edges at top level, in dead branches, captures, component bodies, loops, blocks, filter sections and else branches), self-loops, cycles of length 2-10 entered from a tail, '
                  'dangling targets, targets reachable only through a fallback prefix, exact-vs-prefix shadowing, two prefixes of different priority with twin templates under both, acyclic include and extends chains of depth 1-32 (deterministic sweep), and the mixed family (include edges inside blocks of templates in an extends relation, with super()). '
-                 'Each graph is registered as one batch (either order) or in two steps (the set with the edges of one template cut, then that template again with its real source). The engine must accept exactly the graphs the oracle finds sound and reject the others with an error kind in the oracle\'s admissible set; every template of every accepted set is then rendered: text or an error, never a dead process or a CPU-budget overrun, and text without fail when the graph has no extends edge (nothing can recurse then).',
+                 'Each graph is registered as one batch (either order) or in two steps (the set with the edges of one template cut, then that template again with its real source). The engine must accept exactly the graphs the oracle finds sound and reject the others with an error kind in the oracle\'s admissible set; every template of every accepted set is then rendered: text or an error, never a dead process or a CPU-budget overrun, and text without fail when the graph has no extends edge (nothing can recurse then). Registration also happens with one template held back (preferably one under the first prefix) and added alone afterwards, so that what a short name resolves to changes without the templates using it being registered again.',
         'note': 'when several faults coexist any corresponding kind is accepted; termination is decided as bounded progress (20 s CPU per case, confirmed alone with 10x); stack verdicts for an 8 MiB stack and the optimised build',
         'rule': "one evaluation = one registration or one render; a cell = (shape class incl. cycle length/tail or chain depth, engine verdict, set of include placements, prefix in use)",
         'must_observe': ['graphs_accepted', 'graphs_rejected', 'renders_supervised', 'graphs_completed_in_a_second_step'],
@@ -220,7 +220,7 @@ PROPS = {
         'technique': 'three oracles on generated expression trees rendered by the real engine: parenthesisation metamorphism (documented precedence table vs full parentheses), reference-model evaluation (model written from the docs), and an evaluation-trace monitor through a registered probe function',
         'claim': 'Kind-directed random trees (depth 2-5) over all binary/unary/postfix forms, filters, tests, function calls, array/map literals and list comprehensions are printed (a) with the minimal parentheses the documented precedence/associativity table implies plus random redundant parentheses and inter-token whitespace/newlines, '
                  '(b) fully parenthesised, (c) inside set/if/kwarg positions; all spellings must agree with each other and with the reference value or error-ness; probe(id=..) calls embedded in sub-expressions must fire in the model\'s order (left to right, stop at the deciding operand of and/or, untaken ternary branches and filtered-out comprehension items never). '
-                 'A deterministic matrix covers the undefined rules: 16 kinds of missing/none subject x 24 uses; another one the truthiness of ~75 values of every kind and numeric representation through not/if/elif/ternary/and/or/default(boolean)/comprehension conditions.',
+                 'A deterministic matrix covers the undefined rules: 16 kinds of missing/none subject x 24 uses; another one the truthiness of ~75 values of every kind and numeric representation through not/if/elif/ternary/and/or/default(boolean)/comprehension conditions. Array and map literals with spreads (`...e` items and entries before, between and after plain ones, overlapping keys, ill-typed spreads) are part of the random trees; an optional-slice matrix checks `?[a:b]` on none, undefined, missing-field and ordinary bases against the documented outcome.',
         'note': 'the environment is fixed (7 variables of every kind incl. none, one unbound); excluded as undocumented: unary-parsed operands directly after `~`, more than two levels of `[`..`]`, maps as comprehension targets, ordering of two undefined values (accepted as equal); error wording is never compared',
         'rule': "one evaluation = one render of one spelling; a cell = (parent operator, child operator, side, value/error) over all parent-child pairs of the tree, plus (missing-subject, use, value/error) for the undefined matrix",
         'must_observe': ['spelling_pairs_compared', 'traces_compared', 'probe_events', 'undefined_rule_cells', 'truthiness_cells'],
@@ -242,7 +242,7 @@ PROPS = {
         'technique': 'reference-model monitor for inheritance: unique sentinel tokens in every block body make the rendered text the resolution trace; model resolver (most-derived definition, super() to the nearest defining ancestor) vs real renders and render_block',
         'claim': 'Chains of 1-8 templates; per level a random subset of 6 block names nested up to 3 deep, inside filter sections and set-blocks, child blocks introduced inside overridden blocks, ancestors that skip a block, super() at several levels, super() without any ancestor definition (must be an error), '
                  'orphan top-level child blocks (must be rejected), shapes that recurse without bound (must be an error), registered as one shuffled batch, one call per template, a batch followed by re-adding a middle template, a batch in which one template first extends a decoy root and is then re-registered under its real parent, or (with a fallback prefix) under a decoy root that the real root, registered last, shadows. Every leaf of every chain is rendered, directly and through a template that includes it, and compared; '
-                 'render_block(t, b) is compared with the text the model attributes to b for every block the full render reaches. One case in 32 is a general generated program (variables, loops, captures, includes and components inside blocks, children calling super()) whose block bodies carry start/end marks: render_block must return exactly the marked stretch of the full render.',
+                 'render_block(t, b) is compared with the text the model attributes to b for every block the full render reaches. One case in 32 is a general generated program (variables, loops, captures, includes and components inside blocks, children calling super()) whose block bodies carry start/end marks: render_block must return exactly the marked stretch of the full render. Registration mode 5 reaches the final chain by adding the real root last under the first of two fallback prefixes (shadowing a decoy under the second); chains are rendered on the engine exactly as the registration steps left it, includers go to a copy.',
         'note': 'block text is compared before enclosing filter sections transform it (what the block itself writes); renders run in a supervised child process',
         'rule': "one evaluation = one registration, render or render_block; a cell = (chain length, leaf level, block nesting, number of super() calls, blocks inside captures or not, model outcome)",
         'must_observe': ['leaf_renders_compared', 'block_renders_compared', 'orphan_block_sets', 'both_refuse', 'chains_reparented_after_registration', 'included_leaves_compared', 'marked_blocks_compared'],
@@ -254,7 +254,7 @@ PROPS = {
         'claim': 'Signatures of 0-5 parameters x {untyped, 7 types} x {no default, default of each literal kind} x rest; calls inline and with body, literal/braced/shorthand/spread arguments, unknown arguments, from the top level, loops, blocks, includes, captures and other components\' bodies. '
                  'The dump printed first in the component must equal the model\'s bound map (declared parameters, defaults, rest, body - nothing from the caller or the global context, both populated with decoys); missing-required, unknown-without-rest and declared/inferred type mismatches must be rejected; '
                  'render_component(name, ctx, body, flag) must equal the equivalent template call, and so must the same call rendered as a one-off string through render_str; component results are not escaped again and bodies follow the caller\'s mode; with 1-3 fallback prefixes the highest-priority definition wins (duplicates at the winning priority rejected); '
-                 'self/mutual/through-body/through-include recursion without base case must be an error, bounded recursion within the limit must render.',
+                 'self/mutual/through-body/through-include recursion without base case must be an error, bounded recursion within the limit must render. Call-sequence family: 2-5 calls in a row (or one call site in a loop) with arguments that are equal but not identical (1 / 1.0 / u64 1 / i128 1, the same text marked safe and not, the same value through different variables), typed and untyped parameters, with and without bodies, autoescaping on: the sequence must render the concatenation of the calls rendered alone and fail when one of them fails alone.',
         'note': 'generator exclusions: negative parameter defaults, map literals forming `{{`/`}}` inside `name={..}`, typed parameters whose default contradicts the type; which escaping mode a component\'s own prints follow when caller and definer disagree is not asserted',
         'rule': "one evaluation = one registration/render; a cell = (number of parameters, rest/closed, body/inline, call site, bound or rejection reason) plus cells of the escaping, priority and recursion families",
         'must_observe': ['context_dumps_compared', 'rejections_agree', 'api_template_pairs', 'escape_checks', 'priority_checks', 'recursion_checks', 'render_str_calls_compared', 'isolation_through_include_checks', 'call_sequences_compared'],
@@ -266,7 +266,7 @@ PROPS = {
         'technique': 'two observation modes over generated routing programs: default escaper with disjoint data/text alphabets (no raw special may reach the output), and a marking escape function installed through the public set_escape_fn whose private-use brackets give the exact number of escapings of every data character, with an event count of escaper calls',
         'claim': 'A route generator sends a source (context string, map field, array item, nested field, map key reached by a key/value loop or `keys`, literal; incl. strings made only of specials) through 1-6 routing steps drawn from 32 kinds (set, loops in captures, set-blocks, filter sections, includes, component arguments/rest/bodies, ~, ternary, or, index, negative index, slice, default, first, join, upper, replace, every other text-returning built-in filter, array and map filters, loop variables, key/value loops, comprehensions, split, map-literal field, function result, safe followed by a rebuilding step) '
                  'to a print site hitting both sinks (expression write and fused variable-path write), inside and outside captures, directly printed array/map containers, `| safe`, optionally through blocks and super(). Mode B asserts depth >= 1 everywhere when autoescape is on and `safe` unused, exactly 1 in pass-through routes (no double escaping), '
-                 'exactly 0 for `| safe`, for a filter and a function registered as safe (trait `is_safe`), and for a safe filter reached through `State::call_filter`, while the same filter/function not registered as safe is escaped, and depth 0 with zero logged escaper calls when the template is not autoescaped (suffix not matching, custom suffix lists set before or after adding, render_str flag). Every eighth case renders a general generated program (markup-free text, no safe, hostile data) with the default escaper.',
+                 'exactly 0 for `| safe`, for a filter and a function registered as safe (trait `is_safe`), and for a safe filter reached through `State::call_filter`, while the same filter/function not registered as safe is escaped, and depth 0 with zero logged escaper calls when the template is not autoescaped (suffix not matching, custom suffix lists set before or after adding, render_str flag). Every eighth case renders a general generated program (markup-free text, no safe, hostile data) with the default escaper. Suffix-history family: 18 names sharing last extensions (multi-dot suffixes, suffixes without a dot, a name equal to a suffix) against 14 suffix lists changed before, between and after 2-6 registration steps; after every step every registered template is rendered alone and must be escaped exactly when its whole name ends with a suffix of the current list. Twin-sink family: the same text through the same sink (component argument, component body, map/array entry, assignment, ternary, print, function and filter results) marked safe and not marked, back to back and from one call site in a loop: each occurrence follows its own mark.',
         'note': 'the escape function also validates that its input is valid UTF-8 (it is produced with from_utf8_unchecked); mixed on/off modes inside one render are not generated',
         'rule': "one evaluation = one render; a cell = (ordered routing step kinds, sink, autoescape on/off, configuration)",
         'must_observe': ['mode_a_outputs_checked', 'escape_calls_logged', 'data_characters_classified', 'pass_through_programs', 'safe_programs', 'not_autoescaped_programs', 'per_call_flag_checks', 'suffix_decisions_checked', 'twin_sink_halves_classified'],
